@@ -2,7 +2,7 @@
     commit (memory + stored dictionary, whole-dictionary save).  Durability against the store
     history, visibility to later tasks and traces are monitor clauses (18,_). *)
 From Coq Require Import List ZArith Bool Arith.
-From FF Require Import Sx StoreModel StoreCheck PreCheck ShareData ShareDataFacts.
+From FF Require Import Sx StoreModel StoreCheck PreCheck ShareData ShareDataFacts ShareDataConc.
 Import ListNotations.
 Local Open Scope Z_scope.
 
@@ -28,3 +28,40 @@ Theorem C18_sets_keep_keys : forall (ops : list (Z * Z)) s k0,
   d_get (stored (fold_left (fun acc kv => sd_set true acc (fst kv) (snd kv) true) ops s)) k0 <> None.
 Proof. exact sets_keep_keys. Qed.
 Print Assumptions C18_sets_keep_keys.
+
+(** --- concurrent Sets (ShareDataConc: any number of tasks calling Set in parallel, every interleaving of
+    their mutex acquisitions, in-memory writes, saves - succeeding or failing - and returns).  Whenever no Set
+    is inside its critical section the in-memory view is exactly what is stored; a stored key is never lost;
+    a Set that saved successfully returns with its value in the store; a Set whose save failed leaves the view
+    as it was.  The variant that saves outside the mutex loses a key ([..._refuted]).  The tie to the source:
+    the synchronisation skeleton of ShareData.Set / Get (family skel, ids 13, 14) and the differential run of
+    the sequential function (family sharedata). --- *)
+
+Theorem C18_concurrent_view_is_store : forall d ls s,
+  crun true (cinit d) ls = Some s -> c_lock s = None -> dict_equiv (c_mem s) (c_stored s).
+Proof. exact free_agrees. Qed.
+Print Assumptions C18_concurrent_view_is_store.
+
+Theorem C18_concurrent_keys_never_lost : forall d ls s l s' k,
+  crun true (cinit d) ls = Some s -> cstep true s l = Some s' -> d_get (c_stored s) k <> None -> d_get (c_stored s') k <> None.
+Proof.
+  intros d ls s l s' k Hr. apply stored_key_kept. exact (cinv_reach ls _ _ (cinv_init d) Hr).
+Qed.
+Print Assumptions C18_concurrent_keys_never_lost.
+
+Theorem C18_concurrent_set_returns_stored : forall d ls s i k v s',
+  crun true (cinit d) ls = Some s -> c_pc s i = TSaved k v true -> cstep true s (CReturn i) = Some s' ->
+  d_get (c_stored s') k = Some v.
+Proof. exact set_returns_stored. Qed.
+Print Assumptions C18_concurrent_set_returns_stored.
+
+Theorem C18_concurrent_failed_set_rolled_back : forall d ls s i k v,
+  crun true (cinit d) ls = Some s -> c_pc s i = TSaved k v false -> dict_equiv (c_mem s) (c_stored s).
+Proof. exact failed_set_rolled_back. Qed.
+Print Assumptions C18_concurrent_failed_set_rolled_back.
+
+Theorem C18_save_outside_mutex_refuted :
+  exists s, crun false (cinit []) w_lost_key = Some s /\ c_lock s = None /\
+            d_get (c_mem s) 2 = Some 22 /\ d_get (c_stored s) 2 = None.
+Proof. exact unlocked_save_refuted. Qed.
+Print Assumptions C18_save_outside_mutex_refuted.
